@@ -75,6 +75,9 @@ Proof.
       destruct (response_events h r) as [l|]; [|discriminate]. inversion H; subst.
       rewrite (IH l eq_refl). destruct (is_nil ch); reflexivity.
     + discriminate.
+    + destruct (h_type h); [discriminate|]. destruct (idx <? 0)%Z; [discriminate|].
+      destruct (response_events h r) as [l|]; [|discriminate]. inversion H; subst.
+      rewrite (IH l eq_refl). reflexivity.
 Qed.
 
 Lemma view_apply_cons : forall w e r, view_apply (view_apply w [e]) r = view_apply w (e :: r).
@@ -123,6 +126,8 @@ Proof.
     destruct (send_events h x r) as [ps st]. cbn [fst] in *.
     destruct (is_nil ch); [apply IH; exact Hp|]. destruct Hp as [Hp|Hp]; [subst; reflexivity|apply IH; exact Hp].
   - destruct Hp.
+  - destruct (h_type h); [destruct Hp|]. destruct (idx <? 0)%Z; [destruct Hp|].
+    destruct (send_events h x r) as [ps st]. cbn [fst] in *. destruct Hp as [Hp|Hp]; [subst; reflexivity|apply IH; exact Hp].
 Qed.
 
 Lemma resource_event_rid : forall c x p, In p (fst (resource_event qs h c x)) -> pub_rid p = x.
@@ -132,7 +137,8 @@ Proof.
   destruct (plain_query h x) as [qx|]; [|destruct Hp].
   destruct (qs_events qs c qx) as [[evs reset]|]; [|destruct Hp].
   destruct reset; [destruct Hp as [Hp|[]]; subst; reflexivity|].
-  destruct evs as [|e r]; [destruct Hp|]. eapply send_events_rid; exact Hp.
+  destruct evs as [|e r]; [destruct Hp|].
+  destruct (events_transformable (h_trans h) (e :: r)); [|destruct Hp]. eapply send_events_rid; exact Hp.
 Qed.
 
 (* ---- ordinary resources ---- *)
@@ -214,7 +220,7 @@ Proof.
         + rewrite view_apply_nil'. rewrite (Same eq_refl eq_refl). apply view_equiv_refl.
         + destruct (Sound eq_refl) as [Ra Nd].
           destruct (delivered (e :: r) l l' (Ty ltac:(discriminate)) ltac:(discriminate) Ra Nd) as [sent [Rs Eq]].
-          rewrite Rs. exact Eq. }
+          rewrite (addrem_transformable _ _ (raw_apply_addrem _ _ _ Ra)). rewrite Rs. exact Eq. }
     destruct (memb rid (announced h c)) eqn:M; [exact Conv|].
     destruct reset.
     + exfalso. assert (In rid (announced h c)) by (apply Ann; left; reflexivity).
@@ -235,6 +241,7 @@ Proof.
         -- cbn [fst client_pubs]. rewrite (Same eq_refl eq_refl). apply view_equiv_refl.
         -- destruct (Sound eq_refl) as [Ra Nd].
            destruct (delivered (e :: r) l l' (Ty ltac:(discriminate)) ltac:(discriminate) Ra Nd) as [sent [Rs Eq]].
+           rewrite (addrem_transformable _ _ (raw_apply_addrem _ _ _ Ra)).
            rewrite (send_resp rid _ sent Rs). cbn [fst]. rewrite client_events. exact Eq.
     + destruct reset.
       * exfalso. assert (In rid (announced h c)) by (apply Ann; left; reflexivity).
